@@ -43,17 +43,22 @@ def run(ctx):
     for vi in (0, 4, 8):
         rules = deriv.RULES.get(vi) or []
         if q:
-            n = 16 if vi == 4 else 6
+            n = 10 if vi == 4 else 4
             idx = sorted(set([(ctx.seed * 7 + i * (len(rules) // n)) % len(rules) for i in range(n)] +
                              [rules.index(r) for r in ('funcdef', 'type_params', 'eval_input', 'typedargslist', 'dictorsetmaker', 'import_from', 'fstring_format_spec', 'fstring_expr', 'atom')
                               if r in rules]))
         else:
             idx = range(len(rules)) if vi == 4 else range(vi % 4, len(rules), 4)
         for r in idx:
+            important = rules[r] in ('funcdef', 'type_params', 'eval_input', 'typedargslist', 'dictorsetmaker', 'import_from',
+                                     'fstring_format_spec', 'fstring_expr', 'atom')
+            if q and important and vi != 4 and rules[r] not in ('funcdef', 'type_params', 'fstring_format_spec'):
+                continue
             C.append(xh.Cond(H, 'deriv', timeout=300 if q else 900, path_timeout=30, env={'VP_VERSIONS': '0,2,4,6,8'},
                              name='deriv/%s/v%s' % (rules[r], deriv.VERSIONS[vi]),
-                             extra_pre=['vi == %d' % vi, 'r == %d' % r] + (['c3 < 3', 'c4 == 0'] if q else ['c3 < 3', 'c4 < 2']),
+                             extra_pre=['vi == %d' % vi, 'r == %d' % r] + (
+                                 (['c3 < 3', 'c4 == 0'] if important else ['c3 == 0', 'c4 == 0']) if q else ['c3 < 3', 'c4 < 2']),
                              bound='derivations from file_input and eval_input through rule %s with %s free arc choices' % (
-                                 rules[r], '6x6x3' if q else '6x6x3x2'),
+                                 rules[r], ('6x6x3' if important else '6x6') if q else '6x6x3x2'),
                              realised='4 arc choices, start-rule flag (complete)'))
     xh.run_conditions(ctx, C)
